@@ -235,19 +235,75 @@ to `most_accurate_type([seed, update])` when the update expression has another t
 def accType (seed upd : CT) : Except Refusal CT :=
   if upd ≠ seed then mostAccurate [seed, upd] else .ok seed
 
+/-- slot of the accumulator in the environment of an update expression -/
+def accSlot : Nat := 0
+
+/-- The accumulator is a `cpp_variable` whose type is *mutated* (`update_type`) after the update expression
+has been translated: in the emitted C++ it has the widened type wherever its name occurs. -/
+def CE.retype (t : CT) : CE → CE
+  | .leaf t' s i => if i = accSlot then .leaf t s i else .leaf t' s i
+  | .ilit n => .ilit n
+  | .blit b => .blit b
+  | .bin op l r => .bin op (l.retype t) (r.retype t)
+  | .cast t' e => .cast t' (e.retype t)
+  | .pow l r => .pow (l.retype t) (r.retype t)
+  | .un op e => .un op (e.retype t)
+
+/-- `set_var` decides its cast when the statement is *emitted*, i.e. with the accumulator's final type when the
+value is the accumulator variable itself; the type of a compound expression was fixed when it was visited. -/
+def finalRep (accTy : CT) (r : Rep) : Rep :=
+  match r.ce with
+  | .leaf _ s i => if i = accSlot then ⟨accTy, .leaf accTy s i⟩ else r
+  | _ => ⟨r.ty, r.ce.retype accTy⟩
+
+/-- the update lambda of an `Aggregate`: a scalar expression, or a conditional (what `Max`/`Min` expand to) -/
+inductive Upd
+  | plain (e : Expr)
+  | cond (test a b : Expr)
+  deriving Repr
+
 structure AggOut where
   accTy : CT
   seed : CE
-  updRhs : CE      -- right-hand side of `acc = …;`
+  cond : Option CondOut     -- the conditional evaluated inside the loop, if any
+  updRhs : CE               -- right-hand side of `acc = …;`
   deriving Repr
 
-/-- given the seed's representation and the update's (translated with the accumulator typed as the seed) -/
-def emitAgg (seed upd : Rep) : Except Refusal AggOut :=
+def translateUpd (ifName : String) (ifSlot : Nat) : Upd → Except Refusal (Option (Rep × Rep × Rep) × Rep)
+  | .plain e =>
+    match translate e with
+    | .error x => .error x
+    | .ok r => .ok (none, r)
+  | .cond t a b =>
+    match translate t with
+    | .error x => .error x
+    | .ok tr =>
+      match translate a with
+      | .error x => .error x
+      | .ok ar =>
+        match translate b with
+        | .error x => .error x
+        | .ok br => .ok (some (tr, ar, br), ⟨condResultType, .leaf condResultType ifName ifSlot⟩)
+
+/-- `visit_call_Aggregate_initial`: `seed` is the representation of the initial value, the update was
+translated with the accumulator typed as the seed. -/
+def emitAgg (ifName : String) (ifSlot : Nat) (seed : Rep) (u : Upd) : Except Refusal AggOut :=
   if accTypeOk seed.ty then
-    match accType seed.ty upd.ty with
+    match translateUpd ifName ifSlot u with
     | .error e => .error e
-    | .ok t => .ok { accTy := t, seed := seed.ce, updRhs := setVarRhs t upd }
+    | .ok (c, upd) =>
+      match accType seed.ty upd.ty with
+      | .error e => .error e
+      | .ok t =>
+        .ok { accTy := t, seed := seed.ce,
+              cond := c.map fun (tr, ar, br) => emitCond ifName ifSlot (finalRep t tr) (finalRep t ar) (finalRep t br),
+              updRhs := setVarRhs t (finalRep t upd) }
   else .error .valueError
+
+def aggLines (accName ifName : String) (o : AggOut) : List String :=
+  [o.accTy.name ++ " " ++ accName ++ " (" ++ o.seed.render ++ ");"] ++
+  (match o.cond with | some c => condLines ifName c | none => []) ++
+  [accName ++ " = " ++ o.updRhs.render ++ ";"]
 
 /-- `visit_BoolOp`: `bool r; r = v₀; if (r) { r = v₁; } …` — right-hand sides of the assignments -/
 def boolOpRhs (vals : List Rep) : List CE := vals.map (setVarRhs .bool)
@@ -420,8 +476,10 @@ def PV.toI : PV N → Int
 def PV.truthy : PV N → Bool
   | .int n => n != 0 | .bool b => b | .float x => !(N.eq x (N.ofInt 0))
 
-/-- Python binary arithmetic (none: ZeroDivisionError / TypeError / not an arithmetic operator here) -/
-def pyBin (op : PyBin) (a b : PV N) : Option (PV N) :=
+/-- Python binary arithmetic (none: ZeroDivisionError / TypeError / not an arithmetic operator here).
+`rp = true`: the property's reading "`**` is a real power" (int ** int is the real number too);
+`rp = false`: CPython, where `int ** non-negative int` is an `int`. -/
+def pyBin (rp : Bool) (op : PyBin) (a b : PV N) : Option (PV N) :=
   if a.isFloat || b.isFloat then
     let x := a.toF; let y := b.toF
     match op with
@@ -441,7 +499,8 @@ def pyBin (op : PyBin) (a b : PV N) : Option (PV N) :=
     | .div => if y = 0 then none else some (.float (N.div (N.ofInt x) (N.ofInt y)))
     | .mod => if y = 0 then none else some (.int (Int.fmod x y))
     | .pow =>
-      if 0 ≤ y then some (.int (x ^ y.toNat))
+      if rp then some (.float (N.pow (N.ofInt x) (N.ofInt y)))
+      else if 0 ≤ y then some (.int (x ^ y.toNat))
       else if x = 0 then none else some (.float (N.pow (N.ofInt x) (N.ofInt y)))
     | _ => none
 
@@ -474,21 +533,21 @@ def pyCmp (op : PyCmp) (a b : PV N) : Option (PV N) :=
     | .noteq => some (.bool (decide (x ≠ y)))
     | _ => none
 
-def evalPy (env : Env N) : Expr → Option (PV N)
+def evalPy (rp : Bool) (env : Env N) : Expr → Option (PV N)
   | .leaf t _ i => some (leafVal t (env i)).toPy
   | .int n => some (.int n)
   | .flt _ i => some (.float (env i).d)
   | .bool b => some (.bool b)
   | .bin op l r =>
-    match evalPy env l, evalPy env r with
-    | some a, some b => pyBin op a b
+    match evalPy rp env l, evalPy rp env r with
+    | some a, some b => pyBin rp op a b
     | _, _ => none
   | .un op e =>
-    match evalPy env e with
+    match evalPy rp env e with
     | some a => pyUn op a
     | none => none
   | .cmp op l r =>
-    match evalPy env l, evalPy env r with
+    match evalPy rp env l, evalPy rp env r with
     | some a, some b => pyCmp op a b
     | _, _ => none
 
@@ -504,24 +563,105 @@ def evalCondC (env : Env N) (o : CondOut) : Option (CV N) :=
     | some v => some (convert o.result.ty v)
 
 /-- `a if test else b` in Python -/
-def evalCondPy (env : Env N) (test a b : Expr) : Option (PV N) :=
-  match evalPy env test with
+def evalCondPy (rp : Bool) (env : Env N) (test a b : Expr) : Option (PV N) :=
+  match evalPy rp env test with
   | none => none
-  | some t => if t.truthy then evalPy env a else evalPy env b
-
-/-- slot of the accumulator in the environment of an update expression -/
-def accSlot : Nat := 0
+  | some t => if t.truthy then evalPy rp env a else evalPy rp env b
 
 def setAcc (env : Env N) (v : CV N) : Env N :=
   fun i => if i = accSlot then ⟨v.toI, v.toD, v.truthy⟩ else env i
 
-/-- the generated loop: `T acc (seed); for (…) { acc = rhs; }` — `elems` are the per-element
-environments (slot `accSlot` is overwritten with the accumulator) -/
-def runAggC (accTy : CT) (rhs : CE) : CV N → List (Env N) → Option (CV N)
+/-- one pass through the generated loop body: `[double r; if (t) r = a; else r = b;] acc = rhs;` -/
+def stepAggC (ifSlot : Nat) (o : AggOut) (env : Env N) (acc : CV N) : Option (CV N) :=
+  let env1 := setAcc env acc
+  match o.cond with
+  | none =>
+    match evalC env1 o.updRhs with
+    | none => none
+    | some v => some (convert o.accTy v)
+  | some c =>
+    match evalCondC env1 c with
+    | none => none
+    | some r =>
+      let env2 : Env N := fun i => if i = ifSlot then ⟨r.toI, r.toD, r.truthy⟩ else env1 i
+      match evalC env2 o.updRhs with
+      | none => none
+      | some v => some (convert o.accTy v)
+
+/-- the generated loop `T acc (seed); for (…) { … acc = rhs; }` over the per-element environments -/
+def runAggC (ifSlot : Nat) (o : AggOut) : CV N → List (Env N) → Option (CV N)
   | acc, [] => some acc
   | acc, env :: rest =>
-    match evalC (setAcc env acc) rhs with
+    match stepAggC ifSlot o env acc with
     | none => none
-    | some v => runAggC accTy rhs (convert accTy v) rest
+    | some v => runAggC ifSlot o v rest
+
+/-- initial value of the accumulator: `T acc (seed);` -/
+def initAggC (o : AggOut) (env : Env N) : Option (CV N) :=
+  match evalC env o.seed with
+  | none => none
+  | some v => some (convert o.accTy v)
+
+/-- Python is dynamically typed: the accumulator has the type of the value it currently holds -/
+def PV.ct : PV N → CT
+  | .int _ => .int | .float _ => .double | .bool _ => .bool
+
+def Expr.retype (t : CT) : Expr → Expr
+  | .leaf t' s i => if i = accSlot then .leaf t s i else .leaf t' s i
+  | .int n => .int n
+  | .flt s i => .flt s i
+  | .bool b => .bool b
+  | .bin op l r => .bin op (l.retype t) (r.retype t)
+  | .un op e => .un op (e.retype t)
+  | .cmp op l r => .cmp op (l.retype t) (r.retype t)
+
+def setAccPy (env : Env N) (v : PV N) : Env N :=
+  fun i => if i = accSlot then ⟨v.toI, v.toF, v.truthy⟩ else env i
+
+def stepAggPy (rp : Bool) (u : Upd) (env : Env N) (acc : PV N) : Option (PV N) :=
+  let env1 := setAccPy env acc
+  match u with
+  | .plain e => evalPy rp env1 (e.retype acc.ct)
+  | .cond t a b => evalCondPy rp env1 (t.retype acc.ct) (a.retype acc.ct) (b.retype acc.ct)
+
+/-- `functools.reduce(lambda acc, v: upd, elems, seed)` -/
+def runAggPy (rp : Bool) (u : Upd) : PV N → List (Env N) → Option (PV N)
+  | acc, [] => some acc
+  | acc, env :: rest =>
+    match stepAggPy rp u env acc with
+    | none => none
+    | some v => runAggPy rp u v rest
+
+/-- `visit_BoolOp` with two operands: `bool r; r = v₀; if (r) { r = v₁; }` (and) / `if (!r) { r = v₁; }` (or) -/
+def evalBoolOpC (isAnd : Bool) (env : Env N) (rhs0 rhs1 : CE) : Option Bool :=
+  match evalC env rhs0 with
+  | none => none
+  | some v0 =>
+    let r := (convert CT.bool v0).truthy
+    if (if isAnd then r else !r) then
+      match evalC env rhs1 with
+      | none => none
+      | some v1 => some (convert CT.bool v1).truthy
+    else some r
+
+def evalBoolOpPy (rp : Bool) (isAnd : Bool) (env : Env N) (a b : Expr) : Option (PV N) :=
+  match evalPy rp env a with
+  | none => none
+  | some x => if (if isAnd then x.truthy else !x.truthy) then evalPy rp env b else some x
+
+/-! ## the aggregate shortcuts of func_adl (`aggregate_node_transformer`): all seeded with the int constant 0 -/
+
+def accLeaf (t : CT) : Expr := .leaf t "acc" accSlot
+def seed0 : Rep := ⟨.int, .ilit 0⟩
+/-- `Count()`: `lambda acc,v: acc+1` -/
+def countUpd : Upd := .plain (.bin .add (accLeaf .int) (.int 1))
+/-- `Sum()`: `lambda acc,v: acc + v` over values of declared type `k` -/
+def sumUpd (k : CT) (s : String) (slot : Nat) : Upd := .plain (.bin .add (accLeaf .int) (.leaf k s slot))
+/-- `Max()`: `lambda acc,v: acc if acc > v else v` -/
+def maxUpd (k : CT) (s : String) (slot : Nat) : Upd :=
+  .cond (.cmp .gt (accLeaf .int) (.leaf k s slot)) (accLeaf .int) (.leaf k s slot)
+/-- `Min()`: `lambda acc,v: acc if acc < v else v` -/
+def minUpd (k : CT) (s : String) (slot : Nat) : Upd :=
+  .cond (.cmp .lt (accLeaf .int) (.leaf k s slot)) (accLeaf .int) (.leaf k s slot)
 
 end FaxVerif.C13
